@@ -1370,9 +1370,9 @@ WITNESSES = [
          new="        self._curve_reg.add_usage(name, (self._name, 'Tank'))\n        self._curve_reg.remove_usage(self._vol_curve_name, (self._name, 'Tank'))\n", rule="R-C14-1c"),
     dict(name="remove-link-refusal-only-when-forced", file=MODEL, old="        link = self.get_link(name)\n        if not force:\n", new="        link = self.get_link(name)\n        if force:\n", rule="R-C14-4"),
     dict(name="duplicate-link-name-checked-after-construction", file=MODEL, old="        pipe = Pipe(name, start_node_name, end_node_name, self)\n", new="        pipe = Pipe(name, start_node_name, end_node_name, self)\n        if name in self._data:\n            raise ValueError('Link name already exists')\n",
-         also=[('        if name in self._data:\n            raise ValueError("Link name already exists")\n        assert (\n            isinstance(start_node_name, str) and len(start_node_name) < 32 and start_node_name.find(" ") == -1\n        ), "start_node_name must be a string with less than 32 characters and contain no spaces"\n        assert (\n            isinstance(end_node_name, str) and len(end_node_name) < 32 and end_node_name.find(" ") == -1\n        ), "end_node_name must be a string with less than 32 characters and contain no spaces"\n        length = float(length)', '        length = float(length)')], rule="R-C14-6"),
-    dict(name="quiet-duplicate-check-hoisted-into-local", file=MODEL, silent=True, old='        if name in self._data:\n            raise ValueError("Link name already exists")\n        assert (\n            isinstance(start_node_name, str) and len(start_node_name) < 32 and start_node_name.find(" ") == -1\n        ), "start_node_name must be a string with less than 32 characters and contain no spaces"\n        assert (\n            isinstance(end_node_name, str) and len(end_node_name) < 32 and end_node_name.find(" ") == -1\n        ), "end_node_name must be a string with less than 32 characters and contain no spaces"\n        length = float(length)',
-         new='        taken = name in self._data\n        length = float(length)\n        if taken:\n            raise ValueError("Link name already exists")\n'),
+         also=[('        if name in self._data:\n            raise ValueError("Link name already exists")\n        assert (\n            isinstance(start_node_name, str) and len(start_node_name) < 32 and start_node_name.find(" ") == -1\n        ), "start_node_name must be a string with less than 32 characters and contain no spaces"\n        assert (\n            isinstance(end_node_name, str) and len(end_node_name) < 32 and end_node_name.find(" ") == -1\n        ), "end_node_name must be a string with less than 32 characters and contain no spaces"\n        assert isinstance(length, (int, float)), "length must be a float"\n', '        assert (\n            isinstance(start_node_name, str) and len(start_node_name) < 32 and start_node_name.find(" ") == -1\n        ), "start_node_name must be a string with less than 32 characters and contain no spaces"\n        assert (\n            isinstance(end_node_name, str) and len(end_node_name) < 32 and end_node_name.find(" ") == -1\n        ), "end_node_name must be a string with less than 32 characters and contain no spaces"\n        assert isinstance(length, (int, float)), "length must be a float"\n')], rule="R-C14-6"),
+    dict(name="quiet-duplicate-check-hoisted-into-local", file=MODEL, silent=True, old='        if name in self._data:\n            raise ValueError("Link name already exists")\n        assert (\n            isinstance(start_node_name, str) and len(start_node_name) < 32 and start_node_name.find(" ") == -1\n        ), "start_node_name must be a string with less than 32 characters and contain no spaces"\n        assert (\n            isinstance(end_node_name, str) and len(end_node_name) < 32 and end_node_name.find(" ") == -1\n        ), "end_node_name must be a string with less than 32 characters and contain no spaces"\n        assert isinstance(length, (int, float)), "length must be a float"\n',
+         new='        taken = name in self._data\n        assert (\n            isinstance(start_node_name, str) and len(start_node_name) < 32 and start_node_name.find(" ") == -1\n        ), "start_node_name must be a string with less than 32 characters and contain no spaces"\n        assert (\n            isinstance(end_node_name, str) and len(end_node_name) < 32 and end_node_name.find(" ") == -1\n        ), "end_node_name must be a string with less than 32 characters and contain no spaces"\n        assert isinstance(length, (int, float)), "length must be a float"\n        if taken:\n            raise ValueError("Link name already exists")\n'),
     dict(name="duplicate-source-name-accepted", file=MODEL, old='        if name in self._sources:\n            raise ValueError("Source name already exists")\n', new="", rule="R-C14-6"),
     dict(name="controls-removed-before-refusal", file=MODEL, old="        self._node_reg.__delitem__(name)\n        if not force and with_control:\n            for i in x:\n                self.remove_control(i)\n",
          new="        if not force and with_control:\n            for i in x:\n                self.remove_control(i)\n        self._node_reg.__delitem__(name)\n", rule="R-C14-4b"),
